@@ -56,7 +56,7 @@ func VerifHarness_C01_converge() {
 				w.k.node.handleMessage(ctx, w.last)
 				w.pump()
 			}
-		case 5:
+		case 5: // a new process on the same storage (the in-process restart of Node.Run is a step of C01_race)
 			w.restart()
 		}
 		w.checkInSyncNotifications(before)
@@ -83,7 +83,7 @@ func VerifHarness_C01_converge() {
 			// nothing in flight and not there yet: time passes until a request time-out fires
 			verifrt.Advance(11 * time.Minute)
 			if terr := w.k.node.state.CheckTimeouts(); terr != nil {
-				w.restart()
+				w.reconnect() // Node.Run restarts in place: same node, State.Reset, new connection
 				verifrt.Reach("C01.timeout.restart")
 			}
 		}
@@ -107,9 +107,9 @@ func VerifHarness_C01_converge() {
 // the block processor's pop of a block and its ProcessBlock call.
 func VerifHarness_C01_race() {
 	ctx := context.Background()
-	freeSteps, rounds := 4, 6
+	freeSteps, rounds := 3, 6
 	if verifrt.Thorough() {
-		freeSteps = 5
+		freeSteps = 4
 	}
 	k, err := vkNewNode(ctx, nil)
 	verifrt.Assert(err == nil, "C01.kit.node-loads")
@@ -119,12 +119,24 @@ func VerifHarness_C01_race() {
 	tree.add("a1", "", nil)
 	tree.add("a2", "a1", []*wire.MsgTx{vkTx(1, []int{0}, true)})
 	tree.add("a3", "a2", nil)
-	tree.add("b2", "a1", []*wire.MsgTx{vkTx(2, []int{0}, true)})
-	tree.add("b3", "b2", nil)
-	tree.add("b4", "b3", nil)
-	tips := []string{"a2", "a3", "b3", "b4"}
+	var tips, starts []string
+	deepFork := verifrt.Choose("tree", 2) == 1
+	if !deepFork {
+		// fork at height 1
+		tree.add("b2", "a1", []*wire.MsgTx{vkTx(2, []int{0}, true)})
+		tree.add("b3", "b2", nil)
+		tree.add("b4", "b3", nil)
+		tips, starts = []string{"a2", "a3", "b3", "b4"}, []string{"a1", "a2"}
+	} else {
+		// fork at height 3, deeper than one getheaders reply reaches from genesis (limit 2 below)
+		tree.add("a4", "a3", nil)
+		tree.add("b4", "a3", []*wire.MsgTx{vkTx(2, []int{0}, true)})
+		tree.add("b5", "b4", nil)
+		tips, starts = []string{"a4", "b5"}, []string{"a3", "a4"}
+	}
 	w := &c01World{ctx: ctx, k: k, tree: tree, heard: map[string]bool{}}
-	w.peer = vkNewPeer(tree, []string{"a1", "a2"}[verifrt.Choose("peer.initial-tip", 2)])
+	w.peer = vkNewPeer(tree, starts[verifrt.Choose("peer.initial-tip", 2)])
+	w.peer.maxHeaders = 2 // a getheaders reply is bounded (2000 in Bitcoin; 2 for this tree size)
 	w.settle(rounds)
 	verifrt.Assume(w.converged() && w.k.node.state.IsReady() && w.peer.sendHeaders)
 	verifrt.Reach("C01.race.settled-in-sync")
@@ -133,7 +145,9 @@ func VerifHarness_C01_race() {
 	steps := []string{"s0", "s1", "s2", "s3", "s4"}
 	for s := 0; s < freeSteps; s++ {
 		before := w.countInSync()
-		switch verifrt.Choose(steps[s]+".step", 4) {
+		switch verifrt.Choose(steps[s]+".step", 5) {
+		case 4:
+			w.reconnect()
 		case 0:
 			w.deliver()
 		case 1:
@@ -166,7 +180,7 @@ func VerifHarness_C01_race() {
 		if !progressed && !w.converged() {
 			verifrt.Advance(11 * time.Minute)
 			if terr := w.k.node.state.CheckTimeouts(); terr != nil {
-				w.restart()
+				w.reconnect() // Node.Run restarts in place: same node, State.Reset, new connection
 				verifrt.Reach("C01.timeout.restart")
 			}
 		}
